@@ -1045,6 +1045,11 @@ def run(ctx, model):
     c08_cli.cli_equivalence(ctx, cov, ctx.pick(14, 60))
     c08_cli.cli_id_scenarios(ctx, cov)
     c08_cli.reconfigure_equivalence(ctx, cov, ctx.pick(40, 300))
+    # one long-lived terminal object whose attached tmux client changes between requests: an image the newly attached terminal
+    # never received must be transmitted to it before it can show it (the history oracle of harness/c04.py: what each client
+    # received, in order)
+    import c04
+    c04.highlevel(ctx, cov)
     n = ctx.pick(200, 5000)
     jobs = plan_jobs(ctx, n)
     logs, err = run_jobs(ctx, jobs)
@@ -1189,6 +1194,12 @@ def replay(ctx, model, rec):
         sub = common.Ctx(ctx.prop, ctx.tier, ctx.seed)
         sub.work = ctx.work
         c08_cli.cli_id_scenarios(sub, common.Coverage("replay"))
+        return {"violates": bool(sub.violations), "violations": [v["what"] for v in sub.violations][:4]}
+    if kind == "highlevel":
+        import c04
+        sub = common.Ctx(ctx.prop, ctx.tier, ctx.seed)
+        sub.work = ctx.work
+        c04.highlevel(sub, common.Coverage("replay"))
         return {"violates": bool(sub.violations), "violations": [v["what"] for v in sub.violations][:4]}
     if kind in ("cli-equivalence", "reconfigure"):
         import c08_cli
